@@ -1,9 +1,9 @@
 (* C17 part 4: the inverse-CDF power-law sample is >= xmin, and so is its floor. Uses Coq's Reals. *)
 From Coq Require Import Reals Lra Lia.
+From PV Require Import model.PowerlawR.
 Open Scope R_scope.
 
-Definition powerlaw_value (xmin alpha r : R) : R :=
-  (xmin - 1/2) * Rpower (1 - r) (- 1 / (alpha - 1)) + 1/2.
+(* powerlaw_value now lives in model/PowerlawR.v *)
 
 (* key analytic fact: y in (0,1], e <= 0  ==>  y^e >= 1 *)
 Lemma Rpower_ge_1 (y e : R) : 0 < y <= 1 -> e <= 0 -> 1 <= Rpower y e.
